@@ -5,6 +5,7 @@ import XeofsProofs.Lemmas.Small
 import XeofsProofs.Props.C01
 import XeofsModel.Generated.Facts
 import XeofsModel.Generated.Formulas
+import XeofsProofs.Lemmas.CpccaModel
 /-!
 # C03 — full-mode inverse_transform restores the data; transform ∘ inverse_transform = id; `normalized`
 -/
@@ -85,5 +86,13 @@ example : scalerInverse ⟨true, true, true⟩ (⟨3, 2, 5, 7⟩ : ScalerParams 
 the PC space through `Vᴴ`, the adjoint of the map `V` that took them in -/
 theorem src_unwhiten_uses_Tinv : Gen.whitenerInverseDataUsesTinv = true := by decide
 theorem src_pca_inverse_is_adjoint : Gen.pcaTransformUsesV = true ∧ Gen.pcaInverseDataUsesConjTranspose = true := by decide
+
+/-- **cpcca_full_reconstruction on the executable model**: a field whose feature count equals the number of modes (square,
+unitary `Q1`) is restored exactly by `inverse ∘ scores`, whatever the signs -/
+theorem model_cpcca_full_reconstruction {n p q : ℕ} (X : XM.Mat n p 𝕜) (Y : XM.Mat n q 𝕜) (Q1 : XM.Mat p p 𝕜) (s : Fin p → ℝ)
+    (Q2 : XM.Mat q p 𝕜) (sgn : Fin p → ℝ) (hsgn : ∀ j, sgn j * sgn j = 1) (hQ : Q1.toMatrix * (Q1.toMatrix)ᴴ = 1) :
+    (XM.cpccaInverse1 (XM.cpccaFit (le_refl p) X Y Q1 s Q2 sgn) (XM.cpccaFit (le_refl p) X Y Q1 s Q2 sgn).scores1).toMatrix
+      = X.toMatrix :=
+  XP.CpccaM.model_full_reconstruction X Y Q1 s Q2 sgn hsgn hQ
 
 end C03
